@@ -291,6 +291,8 @@ func judge(c *Case) *core.Verdict {
 					return fail("units-differ", "module %s path %s: specification %q, library %q", n, p, f.Units, g.Units)
 				case g.Type != f.Type:
 					return fail("type-differs", "module %s path %s: specification %q, library %q", n, p, f.Type, g.Type)
+				case g.Idb != f.Idb:
+					return fail("identity-base-differs", "module %s path %s: the identityref's base denotes an identity of module %q, the specification says %q (the module whose text holds the type statement)", n, p, g.Idb, f.Idb)
 				case strings.Join(g.Dv, "|") != strings.Join(f.Dv, "|"):
 					return fail("default-values-differ", "module %s path %s: DefaultValues(): specification %q, library %q", n, p, f.Dv, g.Dv)
 				case strings.Join(g.Iff, "|") != strings.Join(f.Iff, "|"):
@@ -839,6 +841,7 @@ var (
 	RegistryFs    = func(r *core.Run) {}
 	RegistryHeaps = func(r *core.Run, col *core.Collector) {}
 	C13Identities = func(r *core.Run) {}
+	C05Types      = func(r *core.Run) {}
 )
 
 func init() {
